@@ -114,6 +114,10 @@ def enabled(obj, X, kind, f="f", hist_len=0):
     if nan_group is None or space.is_nan_leader(nan_group):
         for l in leaders:
             evs.append(["group", "NaN", l])
+    if not quant and kind not in ("ORD",) and nan_group is not None and space.is_nan_leader(nan_group) and leaders:
+        # the missing-value modality renamed into an existing category (mode 'replace' with discarded_value=nan): the two
+        # groups become one, led by the category
+        evs.append(["replace", "NaN", leaders[0]])
     return evs
 
 
@@ -151,7 +155,12 @@ def check_transition(before_obj, after_obj, X, ev, viol, f="f"):
     except Exception as exc:  # noqa
         viol.append({"kind": "transform-raises-after-edit", "what": f"{ev}: transform raised {type(exc).__name__}: {str(exc)[:100]}"})
         return
-    if mode == "replace":
+    if mode == "replace" and a == "NaN":
+        leaders_after = list(after_obj.values_orders[f])
+        if any(space.is_nan_leader(x) for x in leaders_after) or norm(b) not in [norm(x) for x in leaders_after]:
+            viol.append({"kind": "replace-not-renamed", "what": f"{ev}: after 'replace' the group leaders are {leaders_after!r}"})
+            return
+    elif mode == "replace":
         leaders_after = [norm(x) for x in after_obj.values_orders[f]]
         if norm(b) not in leaders_after or norm(a) in leaders_after:
             viol.append({"kind": "replace-not-renamed", "what": f"{ev}: after 'replace' the group leaders are {list(after_obj.values_orders[f])!r}"})
